@@ -1158,3 +1158,39 @@ Example ex_docker_cap :
   | _ => False
   end.
 Proof. vm_compute. repeat split; reflexivity. Qed.
+
+(* ------------------------------------------------------------------ the table behind symbolic links; processes own no index state *)
+(* BBSHOME/.PASSWDS may be a symbolic link (or a link to a link) to the table: a load through the entry is the load of the records the entry resolves to,
+   so every theorem about load_uhash / load_uhash_by speaks about linked tables as well. In the model this holds by construction (load_passwd_by resolves first);
+   that cache.LoadUHash does the same is what the harness validates (op 33). *)
+Lemma presolve_plink n r : presolve (plink n r) = r.
+Proof. induction n as [|n IH]; cbn [plink presolve]; [reflexivity|exact IH]. Qed.
+
+Lemma load_through_links {K : consts} (p : proc) s :
+  (forall n recs, load_passwd_by p s (plink n recs) = load_uhash s recs) /\
+  (forall mode recs, load_passwd_by p s (passwd_entry mode recs) = load_uhash s recs) /\
+  (forall e e', presolve e = presolve e' -> load_passwd_by p s e = load_passwd_by p s e').
+Proof.
+  split; [|split].
+  - intros n recs. unfold load_passwd_by, load_uhash_by. rewrite presolve_plink. reflexivity.
+  - intros mode recs. unfold load_passwd_by, load_uhash_by, passwd_entry. rewrite presolve_plink. reflexivity.
+  - intros e e' E. unfold load_passwd_by. rewrite E. reflexivity.
+Qed.
+
+Example ex_linked_table : presolve (passwd_entry 3 ex_recs) = ex_recs /\ passwd_entry 3 ex_recs = PLink (PLink (PRegular ex_recs)) /\
+  @load_passwd_by K_default (mkproc false) reset_st (passwd_entry 1 ex_recs) = @load_uhash K_default reset_st ex_recs.
+Proof. split; [reflexivity|split; reflexivity]. Qed.
+
+(* What an operation does and answers is a function of the segment (and of the harness's own .PASSWDS / battery) alone: no process of the model - creator, freshly attached,
+   or attached long ago - owns a private picture of a chain. Hence the long-lived attached process of op 34 is the creator executing the same operation. *)
+Lemma op_function_of_segment {K : consts} (p q : proc) x g : apply_local p x g = apply_local q x g.
+Proof. reflexivity. Qed.
+
+Lemma peer_is_any_process {K : consts} x k g : (0 <=? k) && (k <? 3) = true -> proc2_op g = true ->
+  apply_op x (34 :: k :: g) = apply_local creator x g /\ apply_op x (29 :: 0 :: g) = apply_local creator x g.
+Proof.
+  intros Hk Hg. destruct x as [s f b bk sl].
+  unfold apply_op. rewrite Hk, Hg. cbn [andb orb]. unfold new_shm_existing, attach. cbn [seg_version seg_size seg_body hs].
+  rewrite !Z.eqb_refl. cbn [negb orb andb]. unfold with_st. cbn [hs hfile hbattery hbuckets hslots].
+  split; apply op_function_of_segment.
+Qed.
